@@ -57,10 +57,11 @@ FinalC02(r) ==
   Chk("LenN",              Len(r.ci_out) = n,
   Chk("Labels1toK",        Labels1toK(n, r.ci_out),
   Chk("QEqualsDefinition", ~HasQ(r) \/ QObsOK(r, r.q_out, r.ci_out),
+  Chk("HierarchyOneQPerLevel", Len(r.hier_q) = Len(r.hier_ci),
   Chk("EveryLevelConsistent",
         \A k \in 1..Len(r.hier_ci) :
             Labels1toK(n, r.hier_ci[k]) /\ QObsOK(r, r.hier_q[k], r.hier_ci[k]),
-  "ok")))))))
+  "ok"))))))))
 
 FinalC07(r) ==
   LET n == r.n IN
@@ -73,8 +74,13 @@ FinalC07(r) ==
   (* modularity_und / modularity_dir make no such promise (they start from nothing)     *)
   Skip("not_a_listed_optimiser", r.fn \in {"modularity_und", "modularity_dir"},
   Chk("QFinalGEQStart",    QCmp(r, r.ci_out) >= QCmp(r, StartOf(r)),
+  (* r.noisy = 1: some connections of the real call were perturbed by about 1e-9 (guard-boundary     *)
+  (* inputs); exact comparisons on the integer matrix then decide strict inequalities only up to    *)
+  (* equality - a nonzero exact difference is at least 1/(gd*s^2) >> 1e-9 and keeps its sign          *)
   Chk("HierarchyIncreasing",
-        \A k \in 1..(Len(r.hier_ci) - 1) : QCmp(r, r.hier_ci[k]) < QCmp(r, r.hier_ci[k + 1]),
+        \A k \in 1..(Len(r.hier_ci) - 1) :
+           IF r.noisy = 1 THEN QCmp(r, r.hier_ci[k]) <= QCmp(r, r.hier_ci[k + 1])
+           ELSE QCmp(r, r.hier_ci[k]) < QCmp(r, r.hier_ci[k + 1]),
   Chk("FeedbackNotLower",  Len(r.fed_ci) = 0 \/ QCmp(r, r.fed_ci) >= QCmp(r, r.ci_out),
   "ok")))))))))
 
@@ -121,7 +127,8 @@ TMove ==
          dr == IF drift # "same" THEN drift ELSE d1
          \* C07: a deterministic-gain move strictly raises Q
          cl == IF r.prop = "C07" /\ HasQ(r) /\ ev.forced = 0 /\ shapeOK
-                  /\ ~(QCmp(r, after) > QCmp(r, before))
+                  /\ ~(IF r.noisy = 1 THEN QCmp(r, after) >= QCmp(r, before)
+                       ELSE QCmp(r, after) > QCmp(r, before))
                THEN (IF lvl = 0 THEN "MoveRaisesQ" ELSE "MoveRaisesQAtLaterLevel") ELSE "ok"
      IN /\ l' = l + 1
         /\ lab' = IF shapeOK THEN ev.labels ELSE lab
